@@ -557,9 +557,13 @@ archive_read_open1(struct archive *_a)
 	 * If the bidders' read-ahead already crossed into a later node, the
 	 * filter holds buffered data that belong to that node: going back to
 	 * the first node would release the buffer they live in and replay
-	 * the first node's bytes, so leave the cursor where it is.
+	 * the first node's bytes, so leave the cursor where it is.  With
+	 * filters stacked on the client filter, a->filter is not the one
+	 * that owns the client data, and whatever the bidders read went
+	 * through the filters in order: nothing to go back to either.
 	 */
-	if (a->filter->avail == 0 && a->filter->client_avail == 0)
+	if (a->filter->upstream == NULL &&
+	    a->filter->avail == 0 && a->filter->client_avail == 0)
 		client_switch_proxy(a->filter, 0);
 	return (e);
 }
